@@ -1066,7 +1066,33 @@ func ruleSetRangeRebases(e *Engine, r *Report) {
 	exempt := reqAny("empty range, or the range ends below the first index",
 		reqCmp("", "==", lenP, intConstV(0)),
 		reqCmp("", "<", anyV(), e.callV(first)))
-	res := e.pathUnless(fn, nil, isReturn, isStoreToField(length), exempt)
+	// the re-basing may live in a helper called with the lock held (SetRange = guard + lock + helper):
+	// a call counts as the step when the helper itself re-bases on every path that is not exempt
+	isParamV := func(v ssa.Value) bool { _, ok := stripConv(v).(*ssa.Parameter); return ok }
+	exemptH := reqAny("empty range, or the range ends below the first index",
+		reqCmp("", "==", isParamV, intConstV(0)),
+		reqCmp("", "<", anyV(), e.callV(first)))
+	step := func(in ssa.Instruction) bool {
+		if isStoreToField(length)(in) {
+			return true
+		}
+		c, ok := in.(*ssa.Call)
+		if !ok {
+			return false
+		}
+		g := c.Call.StaticCallee()
+		if g == nil || len(g.Blocks) == 0 || fnPkg(g) != fnPkg(fn) || g == first {
+			return false
+		}
+		writes := false
+		forEachInstr(g, func(x ssa.Instruction) {
+			if isStoreToField(length)(x) {
+				writes = true
+			}
+		})
+		return writes && !e.pathUnless(g, nil, isReturn, isStoreToField(length), exemptH).Found
+	}
+	res := e.pathUnless(fn, nil, isReturn, step, exempt)
 	r.check(!res.Found, "MPT-setrange-rebases", "LogReader.SetRange re-bases its length for every range it is given", e.pos(fn.Pos()),
 		"only an empty or obsolete range leaves the reader unchanged", "SetRange can return without adjusting the reader's length for a non-empty, non-obsolete range: after a persisted conflict truncation the reader keeps reporting the old, longer log (lastIndex/term answer for entries that no longer exist)", res.Trace(e)...)
 }
